@@ -197,6 +197,20 @@ def run(ctx):
         st, _ = alg.apply(alg.init(island.params_tree(c['inst']['init'])), [(ids[k], dss[k], keys[k]) for k in range(len(dss))])
         ev.append({'e': 'Call', 'key': f'agnostic domain weights and params after a round ({name}, regulariser {reg_lam})',
                    'out': tol((np.asarray(st.domain_weights), island.params_list(st.params)))})
+        # the per-domain COUNTS the round derives from its padded batches are the cohort's counts, also when a domain starts
+        # with weight 0 (a client holding only that domain then has scaling weight 0, its examples still count)
+        counts = [sum(1 for ci in range(len(dss)) for j in range(sizes[ci]) if dom(ci, j) == dd) for dd in range(2)]
+        for w0 in ([0.5, 0.5], [1.0, 0.0], [0.0, 1.0]):
+          alg0 = agnostic_fed_avg.agnostic_federated_averaging(
+              island.per_example_loss, fedjax.optimizers.sgd(0.25), fedjax.optimizers.sgd(1.0), island.hparams(fedjax, c['h']),
+              fedjax.PaddedBatchHParams(batch_size=bs, num_batch_size_buckets=bk), init_domain_weights=np.array(w0, np.float32),
+              domain_learning_rate=0.25, regularizer=reg) if w0 != [0.5, 0.5] else alg
+          st0 = st if w0 == [0.5, 0.5] else alg0.apply(alg0.init(island.params_tree(c['inst']['init'])), [(ids[k], dss[k], keys[k]) for k in range(len(dss))])[0]
+          newest = np.asarray(st0.domain_window[-1], np.float64).tolist()
+          ev.append({'e': 'Fact', 'name': 'AgnosticWindowHoldsTheCohortCounts', 'about': f'{name} geometry {(bs, bk)} initial weights {w0}: newest window row {newest}, cohort counts {counts}',
+                     'holds': newest == [float(x) for x in counts]})
+          ev.append({'e': 'Call', 'key': f'agnostic domain weights and params after a round ({name}, regulariser {reg_lam}, initial weights {w0})',
+                     'out': tol((np.asarray(st0.domain_weights), island.params_list(st0.params)))})
         ev.append({'e': 'Fact', 'name': 'AgnosticFinite', 'about': f'{name} geometry {(bs, bk)}', 'holds': bool(np.all(np.isfinite(np.asarray(st.domain_weights))) and np.all(np.isfinite(island.params_list(st.params))))})
         # HypCluster assignment
         ale = models.AverageLossEvaluator(island.per_example_loss, reg)
